@@ -253,3 +253,112 @@ Example C04_hyps_met :
   | _ => (false, Panic, [])
   end = (true, Ok true, [65537153%N; 58985145%N]).
 Proof. vm_compute. reflexivity. Qed.
+
+(* ======================= END TO END: the whole engine (Uci/Engine.v, tied to the real handleInput by the SESSION runs) =======
+   C07 (line -> command), C03 (position -> FIDE game state), C07 (go line -> parameters), C08 (budget), C05 (termination),
+   C05NoPanic (no crash), C04 + C04Null (answer legal / null move only without moves), C01 (engine-legal = FIDE-legal) composed.
+   From ANY engine state that is not RUNNING and whose evaluation cache holds no mate value, for any two oracles:
+       position startpos moves m1 .. mn        (a FIDE-legal game from the initial position; unknown tokens in front allowed)
+       go <standard parameters, any order>      (depth parameter not 255)
+   prints exactly: parseGo's acknowledgements, the timeout line, the info lines, ONE bestmove - a FIDE-legal move of the
+   position reached if there is one, else the null move -, the answer is the head of the last printed PV, every printed PV
+   begins with a FIDE-legal move (and is FIDE-legal throughout unless an info line scores exactly -INF+49), and the engine is
+   IDLE again with the same game.  Hypotheses that remain: the search from this root needs recursion depth at most f0 <= 255
+   ([.. 510 f0 .. <> SStuck]: no unbounded chain of check extensions; discharged for ranked universes, C04_recursion_ranked)
+   and the repetition stack has room for n + f0 <= 1024 entries.  [e2e_result] is unfolded by C04_e2e_defs. *)
+From Clemens Require Uci.Engine Uci.EngineInst Uci.Input Uci.Game Uci.GoLineSpec Uci.ParseGo Rules.Abs Rules.Fide.
+From Clemens.C01Att Require FideFacts.
+From Clemens.C03Recon Require FideText Recon.
+From Clemens.C05Term Require KK.
+From Clemens.EngineE2E Require EngBase EngDispatch EngState EngSearch EngE2E EngText EngRank EngExamples EngFinal.
+Import Clemens.Uci.Engine Clemens.Uci.EngineInst.
+
+Theorem C04_e2e_defs : forall s g sp evs res m,
+  (EngE2E.e2e_result s g sp evs res <->
+     exists e' infos m,
+       res = (SEof e', map OGo evs ++ EngBase.timeout_line g sp ++ map OSearch infos ++ [OBestMove m]) /\
+       en_state e' = ST_IDLE /\ en_game e' = Some g /\ cache_sane go_econsts (en_cache e') /\
+       EngSearch.answer_spec s m /\
+       m = nth 0 (SearchIter.last_pv (rev infos) []) NULL_MOVE /\
+       Forall (EngSearch.pv_head_fide s) infos /\
+       (Forall ev_score_ok infos -> Forall (EngSearch.pv_fide s) infos)) /\
+  (EngSearch.answer_spec s m <->
+     (Fide.legal_moves s <> [] -> m <> NULL_MOVE /\ In (Abs.decode m) (Fide.legal_moves s)) /\
+     (Fide.legal_moves s = [] -> m = NULL_MOVE)).
+Proof. intros. split; apply iff_refl. Qed.
+Print Assumptions C04_e2e_defs.
+
+Theorem C04_engine_answers_startpos :
+  forall iters fuel f0 e c0 c fms s garbage ps,
+  (510 <= iters)%nat -> (f0 <= fuel)%nat -> (f0 <= 255)%nat ->
+  en_state e <> ST_RUNNING -> cache_sane go_econsts (en_cache e) ->
+  Recon.fide_game Fide.initial fms s -> (List.length fms + f0 <= 1024)%nat ->
+  Forall GoLineSpec.plain_token garbage -> GoLineSpec.all_unknown GoConsts.validFirstInputToken garbage ->
+  NoDup (map GoLineSpec.kind ps) -> Forall GoLineSpec.param_ok ps -> GoLineSpec.value_of ParseGo.KDepth ps <> 255%Z ->
+  let pos_line := GoLineSpec.join (Input.w_position :: EngE2E.startpos_tokens fms) in
+  let go_line := GoLineSpec.join (garbage ++ Input.w_go :: GoLineSpec.render ps) in
+  fst (go_run 510 f0 e [(pos_line, c0); (go_line, c)]) <> SStuck ->
+  exists g,
+    FideFacts.same_core (Abs.abs (Game.g_pos g)) s /\ ((List.length fms <= 255)%nat -> Abs.abs (Game.g_pos g) = s) /\
+    List.length (Game.g_hist g) = List.length fms /\
+    EngE2E.e2e_result s g (GoLineSpec.denote ps) (GoLineSpec.acks ps) (go_run iters fuel e [(pos_line, c0); (go_line, c)]).
+Proof. exact EngFinal.engine_answers_startpos_final. Qed.
+Print Assumptions C04_engine_answers_startpos.
+
+Theorem C04_engine_answers_fen :
+  forall iters fuel f0 e c0 c six p0 fms s garbage ps,
+  (510 <= iters)%nat -> (f0 <= fuel)%nat -> (f0 <= 255)%nat ->
+  en_state e <> ST_RUNNING -> cache_sane go_econsts (en_cache e) ->
+  List.length six = 6%nat -> Forall GoLineSpec.plain_token six ->
+  Fen.new_from_fen go_keys GoConsts.unicode_digit_tbl (Game.join_sp six) = Ok p0 -> legal_pos p0 ->
+  Recon.fide_game (Abs.abs p0) fms s -> (List.length fms + f0 <= 1024)%nat ->
+  Forall GoLineSpec.plain_token garbage -> GoLineSpec.all_unknown GoConsts.validFirstInputToken garbage ->
+  NoDup (map GoLineSpec.kind ps) -> Forall GoLineSpec.param_ok ps -> GoLineSpec.value_of ParseGo.KDepth ps <> 255%Z ->
+  let pos_line := GoLineSpec.join (Input.w_position :: EngE2E.fen_tokens six fms) in
+  let go_line := GoLineSpec.join (garbage ++ Input.w_go :: GoLineSpec.render ps) in
+  fst (go_run 510 f0 e [(pos_line, c0); (go_line, c)]) <> SStuck ->
+  exists g,
+    FideFacts.same_core (Abs.abs (Game.g_pos g)) s /\
+    ((ply p0 + N.of_nat (List.length fms) <= 255)%N -> (hmc p0 + N.of_nat (List.length fms) <= 255)%N ->
+       Abs.abs (Game.g_pos g) = s) /\
+    List.length (Game.g_hist g) = List.length fms /\
+    EngE2E.e2e_result s g (GoLineSpec.denote ps) (GoLineSpec.acks ps) (go_run iters fuel e [(pos_line, c0); (go_line, c)]).
+Proof. exact EngFinal.engine_answers_fen_final. Qed.
+Print Assumptions C04_engine_answers_fen.
+
+(* the remaining search hypothesis discharged: in a universe with check budget cb (as in C05_search_ranked) the recursion depth is
+   at most depth + cb root + 66 (quiescence bounded by the men on the board) *)
+Theorem C04_recursion_ranked : forall (U : position -> Prop) (cb : position -> nat),
+  (forall p m q, U p -> movable p m -> make_move go_keys p m = Ok q -> is_legal q = Ok true ->
+     U q /\ (cb q <= cb p)%nat /\ (is_in_check p (side p) = Ok true -> (cb q < cb p)%nat)) ->
+  (forall p q x, U p -> is_in_check p (side p) = Ok false -> make_null_move go_keys p = Ok (q, x) ->
+     U q /\ (cb q <= cb p)%nat) ->
+  forall iters f s root req,
+  U root -> legal_pos root -> (req < 255)%N -> (510 <= iters)%nat ->
+  (N.to_nat (N.max 1 (SearchIter.req_to_depth go_sconsts req)) + cb root + 66 <= f)%nat ->
+  fst (go_search iters f true s root req) <> ROutOfFuel.
+Proof. exact EngRank.go_search_ranked_men. Qed.
+Print Assumptions C04_recursion_ranked.
+
+(* an instance with NO hypothesis on the search: FEN roots with the two kings only, every engine state (not RUNNING, sane cache),
+   both oracles, every depth 1..189 *)
+Theorem C04_engine_answers_kings_only :
+  forall iters fuel e c0 c six p0 garbage ps,
+  let d := Z.to_nat (GoLineSpec.value_of ParseGo.KDepth ps) in
+  (1 <= GoLineSpec.value_of ParseGo.KDepth ps <= 189)%Z ->
+  (510 <= iters)%nat -> (d + 66 <= fuel)%nat ->
+  en_state e <> ST_RUNNING -> cache_sane go_econsts (en_cache e) ->
+  List.length six = 6%nat -> Forall GoLineSpec.plain_token six ->
+  Fen.new_from_fen go_keys GoConsts.unicode_digit_tbl (Game.join_sp six) = Ok p0 -> legal_pos p0 -> KK.kings_only_pos p0 ->
+  Forall GoLineSpec.plain_token garbage -> GoLineSpec.all_unknown GoConsts.validFirstInputToken garbage ->
+  NoDup (map GoLineSpec.kind ps) -> Forall GoLineSpec.param_ok ps ->
+  let pos_line := GoLineSpec.join (Input.w_position :: EngE2E.fen_tokens six []) in
+  let go_line := GoLineSpec.join (garbage ++ Input.w_go :: GoLineSpec.render ps) in
+  EngE2E.e2e_result (Abs.abs p0) {| Game.g_pos := p0; Game.g_hist := [] |} (GoLineSpec.denote ps) (GoLineSpec.acks ps)
+             (go_run iters fuel e [(pos_line, c0); (go_line, c)]).
+Proof. exact EngFinal.engine_answers_kings_only_final. Qed.
+Print Assumptions C04_engine_answers_kings_only.
+
+(* non-vacuity: every hypothesis of C04_engine_answers_startpos discharged for the session
+   `position startpos moves e2e4 e7e5` / `go depth 1` from a freshly started engine, and the session evaluated by the kernel *)
+Example C04_e2e_instance_computed := EngExamples.e2e_startpos_computed.
